@@ -78,6 +78,28 @@ fn main() {
                 println!("{}", tree.root_node().to_sexp());
                 return;
             }
+            "--gen" => {
+                // debug: vcheck --gen <lang> <n> : print invalid generated sentences
+                let l = vengine::lang::zoo(&args[i + 1]);
+                let n: u64 = args[i + 2].parse().unwrap();
+                let mut p = tree_sitter::Parser::new();
+                p.set_language(&l.language).unwrap();
+                let mut bad = 0;
+                for k in 0..n {
+                    let tape = vengine::tape::tape_for(seed, "gen", k, 2048);
+                    let mut t = vengine::tape::Tape::new(&tape);
+                    let d = vengine::gen::doc::sentence(l, &mut t);
+                    let tree = p.parse(&d, None).unwrap();
+                    if tree.root_node().has_error() {
+                        bad += 1;
+                        if d.len() < 160 {
+                            println!("{:?}\n   {}", String::from_utf8_lossy(&d), tree.root_node().to_sexp());
+                        }
+                    }
+                }
+                println!("{bad}/{n} invalid");
+                return;
+            }
             "--list" => {
                 for c in checks::registry() {
                     println!("{}", c.id());
